@@ -328,10 +328,34 @@ def _kwargs(sz, uniq, additional, default_src):
     return out
 
 
+def inline(s):
+    """The spelling with every ("alias", name, target) node replaced by its target (("lit", v) nodes are kept)."""
+    if isinstance(s, tuple) and s and s[0] == "alias":
+        return inline(s[2])
+    if isinstance(s, tuple):
+        return tuple(inline(x) for x in s)
+    if isinstance(s, list):
+        return [inline(x) for x in s]
+    return s
+
+
+def has_lit(s):
+    if isinstance(s, tuple) and s and s[0] == "lit":
+        return True
+    if isinstance(s, dict):
+        return False
+    return isinstance(s, (tuple, list)) and any(has_lit(x) for x in s)
+
+
 def render(s, default_src=None):
     """Python source of a spelling; default_src: text of a default= argument for the OUTERMOST constructor
-    call (only for inst/ctor1/ctorN forms)."""
+    call (only for inst/ctor1/ctorN forms).  ("alias", name, target) renders as the NAME the target expression is
+    bound to; ("lit", reified) as a literal value (right operand of |)."""
     k = s[0]
+    if k == "alias":
+        return s[1]
+    if k == "lit":
+        return G.py_src(s[1])
     if default_src is not None and k not in ("inst", "ctor1", "ctorN"):
         raise ValueError("default= needs a constructor call")
     if k == "name":
